@@ -40,17 +40,6 @@ theorem length_insNat (q : Nat) : ∀ xs : List Nat, (insNat q xs).length = xs.l
     simp only [insNat]
     by_cases h : e < q <;> simp [h, length_insNat q es]
 
-theorem sortedNat_iff (xs : List Nat) : SortedNat xs ↔ xs.Pairwise (· ≤ ·) := by
-  rw [List.pairwise_iff_getElem]
-  constructor
-  · intro h i j hi hj hij
-    have := h i j hij hj
-    simpa [List.getD, List.getElem?_eq_getElem hi, List.getElem?_eq_getElem hj] using this
-  · intro h i j hij hj
-    have hi : i < xs.length := by omega
-    have := h i j hi hj hij
-    simpa [List.getD, List.getElem?_eq_getElem hi, List.getElem?_eq_getElem hj] using this
-
 theorem pairwise_insNat (q : Nat) : ∀ xs : List Nat, xs.Pairwise (· ≤ ·) → (insNat q xs).Pairwise (· ≤ ·)
   | [], _ => by simp [insNat]
   | e :: es, h => by
@@ -106,15 +95,25 @@ structure Leaf1 (t : TreeImg) (xs : List Nat) (pid : Nat) : Prop where
 def sunk (t : TreeImg) (xs qs : List Nat) (pid : Nat) : TreeImg :=
   { t with blobs := qs.reverse ++ t.blobs, leaves := [⟨(sinkXs xs qs).map some, false, pid⟩] }
 
+/-- the key is not in the leaf yet: `replace_property_entry` deletes nothing -/
+theorem filter_ne_some (q : Nat) (xs : List Nat) (h : q ∉ xs) :
+    (xs.map some).filter (fun e => e != some q) = xs.map some := by
+  rw [List.filter_eq_self]
+  intro e he
+  obtain ⟨x, hx, rfl⟩ := List.mem_map.mp he
+  have : x ≠ q := fun h' => h (h' ▸ hx)
+  simpa using this
+
 theorem sinkOneA_eq (cfg : Cfg) (ps : PS) (t : TreeImg) (q : Nat) (xs : List Nat) (pid : Nat) (h : Leaf1 t xs pid)
-    (hcap : xs.length < cfg.leafCap) :
+    (hcap : xs.length < cfg.leafCap) (hq : q ∉ xs) :
     sinkOneA cfg ps t q =
       ((allocA ps).1 ++ [ioA (.pg (.blob t.key q) (allocA ps).2.2)] ++
           [ioA (.pg (.leaf t.key 0 ((insNat q xs).map some) false pid) pid)],
         (allocA ps).2.1, sunk t xs [q] pid) := by
   have hl := h.leaves
   unfold sinkOneA
-  simp only [hl, List.length_singleton, Nat.sub_self, List.getD_cons_zero, List.length_map, hcap, if_true,
+  simp only [hl, List.length_singleton, Nat.sub_self, List.getD_cons_zero, filter_ne_some q xs hq, List.length_map, hcap, if_true,
+    Nat.lt_irrefl, if_false, List.append_nil,
     insertSorted_map, setLeaf, sunk, sinkXs, List.reverse_singleton, List.singleton_append]
 
 def sinkEffs (key pid : Nat) : List Nat → List Nat → List PEff
@@ -128,42 +127,46 @@ theorem sunk_sunk (t : TreeImg) (xs : List Nat) (q : Nat) (qs : List Nat) (pid :
     sunk (sunk t xs [q] pid) (insNat q xs) qs pid = sunk t xs (q :: qs) pid := by
   simp [sunk, sinkXs, List.append_assoc]
 
-variable {p0 : PImg} {live lo : Nat} {allowed covered : List Nat}
+variable {p0 : PImg} {live lo : Nat} {allowed covered : List Nat} {lv : LiveP}
 
 /-- **sinking without split**: block judgement, resulting scratch tree -/
 theorem pblk_sink (cfg : Cfg) :
     ∀ (qs : List Nat) (nd : Nat) (ps : PS) (t : TreeImg) (xs : List Nat) (pid : Nat),
       SameKey p0.hdr ps.pm → min ps.bm ps.pm.nextPage = nd → Leaf1 t xs pid → xs.length + qs.length ≤ cfg.leafCap →
-      (t.key ≠ live ∨ (SortedNat xs ∧ (∀ x ∈ xs, x ∈ allowed) ∧ (∀ x ∈ covered, x ∈ xs) ∧ ∀ q ∈ qs, q ∈ allowed)) →
-      PBlk p0 live allowed covered lo nd ps (sinkA cfg ps t qs).1 (sinkEffs t.key pid xs qs) (nd + qs.length)
+      qs.Nodup → (∀ q ∈ qs, q ∉ xs) →
+      (t.key ≠ live ∨ (lv.Xi = [] ∧ SortedNat xs ∧ (∀ x ∈ xs, x ∈ allowed) ∧ (∀ x ∈ covered, x ∈ xs) ∧ ∀ q ∈ qs, q ∈ allowed)) →
+      PBlk p0 live allowed covered lv lo nd ps (sinkA cfg ps t qs).1 (sinkEffs t.key pid xs qs) (nd + qs.length)
         (sinkA cfg ps t qs).2.1 ∧
       (sinkA cfg ps t qs).2.2 = sunk t xs qs pid
-  | [], nd, ps, t, xs, pid, hsk, hnp, hl, _, _ => by
-    refine ⟨by simpa [sinkA, sinkEffs] using PBlk.nil (live := live) (lo := lo) (allowed := allowed) (covered := covered) hsk hnp, ?_⟩
+  | [], nd, ps, t, xs, pid, hsk, hnp, hl, _, _, _, _ => by
+    refine ⟨by simpa [sinkA, sinkEffs] using PBlk.nil (live := live) (lo := lo) (allowed := allowed) (covered := covered) (lv := lv) hsk hnp, ?_⟩
     simp only [sinkA, sunk, sinkXs, List.reverse_nil, List.nil_append, ← hl.leaves]
-  | q :: qs, nd, ps, t, xs, pid, hsk, hnp, hl, hcap, hsafe => by
+  | q :: qs, nd, ps, t, xs, pid, hsk, hnp, hl, hcap, hnd, hfresh, hsafe => by
     have hcap1 : xs.length < cfg.leafCap := by simp at hcap; omega
-    have hone := sinkOneA_eq cfg ps t q xs pid hl hcap1
-    obtain ⟨ba, hpid, _⟩ := pblk_alloc_eq (p0 := p0) (live := live) (lo := lo) (allowed := allowed) (covered := covered) ps hsk hnp
-    have bb := pblk_write (p0 := p0) (live := live) (lo := lo) (allowed := allowed) (covered := covered) ba.sk ba.np
+    have hnd' := List.nodup_cons.mp hnd
+    have hone := sinkOneA_eq cfg ps t q xs pid hl hcap1 (hfresh q (by simp))
+    obtain ⟨ba, hpid, _⟩ := pblk_alloc_eq (p0 := p0) (live := live) (lo := lo) (allowed := allowed) (covered := covered) (lv := lv) ps hsk hnp
+    have bb := pblk_write (p0 := p0) (live := live) (lo := lo) (allowed := allowed) (covered := covered) (lv := lv) ba.sk ba.np
       (.blob t.key q) (allocA ps).2.2 trivial
-    have hleaf : CEff p0 live allowed covered lo (nd + 1) (.leaf t.key 0 ((insNat q xs).map some) false pid) := by
-      rcases hsafe with h | ⟨h1, h2, h3, h4⟩
+    have hleaf : CEff p0 live allowed covered lv lo (nd + 1) (.leaf t.key 0 ((insNat q xs).map some) false pid) := by
+      rcases hsafe with h | ⟨h0, h1, h2, h3, h4⟩
       · exact Or.inl h
-      · refine Or.inr ⟨rfl, rfl, insNat q xs, rfl, sortedNat_insNat q xs h1, ?_, ?_⟩
+      · refine Or.inr ⟨by rw [h0]; rfl, rfl, insNat q xs, rfl, by rw [h0]; simpa using sortedNat_insNat q xs h1,
+          fun hx => absurd h0 hx, ?_, ?_⟩
         · intro y hy
           rcases (mem_insNat q y xs).mp hy with rfl | hy
           · exact h4 _ (by simp)
           · exact h2 y hy
         · intro y hy
-          exact (mem_insNat q y xs).mpr (Or.inr (h3 y hy))
-    have bl := pblk_write (p0 := p0) (live := live) (lo := lo) (allowed := allowed) (covered := covered) ba.sk ba.np
+          rw [h0]
+          simpa using (mem_insNat q y xs).mpr (Or.inr (h3 y hy))
+    have bl := pblk_write (p0 := p0) (live := live) (lo := lo) (allowed := allowed) (covered := covered) (lv := lv) ba.sk ba.np
       (.leaf t.key 0 ((insNat q xs).map some) false pid) pid hleaf
-    have hsafe' : (sunk t xs [q] pid).key ≠ live ∨ (SortedNat (insNat q xs) ∧ (∀ x ∈ insNat q xs, x ∈ allowed) ∧
+    have hsafe' : (sunk t xs [q] pid).key ≠ live ∨ (lv.Xi = [] ∧ SortedNat (insNat q xs) ∧ (∀ x ∈ insNat q xs, x ∈ allowed) ∧
         (∀ x ∈ covered, x ∈ insNat q xs) ∧ ∀ q' ∈ qs, q' ∈ allowed) := by
-      rcases hsafe with h | ⟨h1, h2, h3, h4⟩
+      rcases hsafe with h | ⟨h0, h1, h2, h3, h4⟩
       · exact Or.inl h
-      · refine Or.inr ⟨sortedNat_insNat q xs h1, ?_, ?_, fun q' hq' => h4 q' (by simp [hq'])⟩
+      · refine Or.inr ⟨h0, sortedNat_insNat q xs h1, ?_, ?_, fun q' hq' => h4 q' (by simp [hq'])⟩
         · intro y hy
           rcases (mem_insNat q y xs).mp hy with rfl | hy
           · exact h4 _ (by simp)
@@ -171,7 +174,12 @@ theorem pblk_sink (cfg : Cfg) :
         · intro y hy
           exact (mem_insNat q y xs).mpr (Or.inr (h3 y hy))
     obtain ⟨br, hres⟩ := pblk_sink cfg qs (nd + 1) (allocA ps).2.1 (sunk t xs [q] pid) (insNat q xs) pid ba.sk ba.np
-      (leaf1_sunk hl [q]) (by rw [length_insNat]; simp at hcap; omega) hsafe'
+      (leaf1_sunk hl [q]) (by rw [length_insNat]; simp at hcap; omega) hnd'.2
+      (by
+        intro q' hq' hin
+        rcases (mem_insNat q q' xs).mp hin with rfl | hin
+        · exact hnd'.1 hq'
+        · exact hfresh q' (by simp [hq']) hin) hsafe'
     have hacts : (sinkA cfg ps t (q :: qs)).1 =
         (((allocA ps).1 ++ [ioA (.pg (.blob t.key q) (allocA ps).2.2)]) ++
           [ioA (.pg (.leaf t.key 0 ((insNat q xs).map some) false pid) pid)]) ++
